@@ -294,7 +294,9 @@ func runC13(c *ctx) {
 			args = append(args, c13Build(ref.B, sz), c13Build(ref.A, sz), c13Build(ref.U2, sz/2))
 		}
 		var b []byte
-		o := real.Try(func() { b = ast.NewHSMSDataMessage("", 1, 1, 0, "H<->E", ast.NewListNode(args...), 7, []byte{0, 0, 0, 0}).ToBytes() })
+		o := real.Try(func() {
+			b = ast.NewHSMSDataMessage("", 1, 1, 0, "H<->E", ast.NewListNode(args...), 7, []byte{0, 0, 0, 0}).ToBytes()
+		})
 		c.NoteBulk(1, 1)
 		c.Class("mixed-length-fields")
 		dec, ok, _ := hsmsParse(b)
@@ -302,6 +304,28 @@ func runC13(c *ctx) {
 			c.Violation("C13/decoder/mixed-length-fields", fmt.Sprintf("a list of items with payload sizes %v does not decode back (built: %s, %d bytes, ok=%v)", sizes, o, len(b), ok), c13Case{"mixed", "B+A+U2", sizes[0]})
 		}
 	}
+	// a long run over many different (format, size) shapes, twice: the header an item gets the second time round is the
+	// header it got the first time (whatever the encoder remembers about shapes it has seen)
+	for pass := 0; pass < 2; pass++ {
+		for k := ref.L; k < ref.NKinds; k++ {
+			for n := 0; n <= 300; n++ {
+				var got []byte
+				o := real.Try(func() { got = c13Build(k, n).ToBytes() })
+				want := ref.Header(k, n*k.Width())
+				if k == ref.L {
+					want = ref.Header(k, n)
+				}
+				c.NoteBulk(1, 1)
+				if o.Panicked || len(got) < len(want) || !bytes.Equal(got[:len(want)], want) {
+					c.Violation("C13/header/wrong-in-a-long-run", fmt.Sprintf("pass %d: %s[%d] encodes with header %x, want %x (%s)", pass+1, k, n, clipB(got), want, o), c13Case{"item", k.String(), n})
+					pass = 2
+					k = ref.NKinds
+					break
+				}
+			}
+		}
+	}
+	c.Class("shapes-encoded-twice-in-a-long-run")
 	// an item at the limit next to other items in a list: the limit binds each length field, not the text of the message
 	// around it (which the 4-byte message length covers)
 	for _, k := range []ref.Kind{ref.A, ref.U1, ref.I8} {
@@ -390,7 +414,7 @@ func runC13(c *ctx) {
 			c.Violation("C13/fill/encoding", fmt.Sprintf("filled ASCII of %d characters encodes to %d bytes", n, len(filled.ToBytes())), c13Case{"fill", "A", n})
 		}
 	}
-	c.Required = []string{"mixed-length-fields", "items-at-the-limit-inside-a-list", "list-at-the-limit-by-expansion", "list-limit-with-variable-last", "earlier-encoding-re-read", "ascii-fill-at-the-limit", "item/beyond-limit", "item/lenbytes=3/L", "item/lenbytes=3/A", "item/lenbytes=3/F8", "item/lenbytes=2/U2", "header-sweep-points"}
+	c.Required = []string{"mixed-length-fields", "shapes-encoded-twice-in-a-long-run", "items-at-the-limit-inside-a-list", "list-at-the-limit-by-expansion", "list-limit-with-variable-last", "earlier-encoding-re-read", "ascii-fill-at-the-limit", "item/beyond-limit", "item/lenbytes=3/L", "item/lenbytes=3/A", "item/lenbytes=3/F8", "item/lenbytes=2/U2", "header-sweep-points"}
 }
 
 func replayC13(c *ctx, raw json.RawMessage) {
